@@ -220,7 +220,7 @@ def run(ctx):
         "traces_validated_against_impl": len(recs),
         "samples": [{"scenario": {k: s[k] for k in ("levels", "u", "start", "stop", "startSp", "stopSp", "cwd")}, "observed": {k: r.get(k) for k in ("outcome", "level")}} for s, r in rnd.sample(pairs, 3)],
         "evaluations": len(recs),
-        **({"obligations": proof[0], "discharged": proof[1], "proof": {"module": "FindProof", "tool": "tlapm", "theorems": ["Safety", "CorrectForEveryDepth", "NeverAbove"],
+        **({"obligations": proof[0], "discharged": proof[1], "proof": {"module": "FindProof", "tool": "tlapm", "theorems": ["Safety", "CorrectForEveryDepth", "NeverAbove", "RankDecreases"],
                                                                     "scope": "Variant = fixed, every Depth in Nat, every set of spellings"}} if proof else {}),
         "distinct_nontrivial": ncf + nun,
         "rule": "directory chains of depth <= %d (each level: no / regular-file / directory entry named spokfile, other entries sorting before and/or after "
